@@ -395,13 +395,19 @@ package slice
 // EditScript is editScriptFunc with == as the comparison (slice.equal, a one-line function; that the class function of
 // `equal` is injective, i.e. eqv(equal, a, b) <==> a == b, is read off its contract above and is not used below).
 //@ func EditScript
-//@   ghostret lp imap[int], rp imap[int]
+//@   ghostret lp imap[int], rp imap[int], es imap[int], cw imap[int], cv imap[int], L int
 //@   ensures [C11,C13] script: len(result) > 0 ==> scriptOK(result, lhs, rhs, equal, lp, rp) && lp[len(result)] == len(lhs) && rp[len(result)] == len(rhs)
 //@   ensures [C11,C13] same: len(result) == 0 ==> len(lhs) == len(rhs) && forall t int :: {lhs[t]} 0 <= t && t < len(lhs) ==> eqv(equal, lhs[t], rhs[t])
 //@   ensures [C11,C13] inputs: unchanged(elems(lhs)) && unchanged(elems(rhs))
 //@   ensures [C11] alternate: altOK(result)
+//@   ensures [C11] kept: len(result) > 0 ==> keptOK(result, es) && es[len(result)] == L
+//@   ensures [C11] common: L >= 0 && (forall k int :: {cw[k]} {cv[k]} 0 <= k && k < L ==> 0 <= cw[k] && cw[k] < len(lhs) && 0 <= cv[k] && cv[k] < len(rhs) && eqv(equal, lhs[cw[k]], rhs[cv[k]])) && (forall a int, b int :: {cw[a], cw[b]} {cv[a], cv[b]} 0 <= a && a <= b && b < L ==> cw[b] - cw[a] >= b - a && cv[b] - cv[a] >= b - a)
 //@   at exit: ghost lp = editScriptFunc_lp
 //@   at exit: ghost rp = editScriptFunc_rp
+//@   at exit: ghost es = editScriptFunc_es
+//@   at exit: ghost cw = editScriptFunc_cw
+//@   at exit: ghost cv = editScriptFunc_cv
+//@   at exit: ghost L = editScriptFunc_L
 //@
 //@ func LCS
 //@   ghostret wa imap[int], wb imap[int]
